@@ -16,12 +16,13 @@ ALL_FEATURES = ["neg", "agg", "arith", "str", "rec", "adt", "range", "recursion"
 
 class Gen:
     def __init__(self, rng, features=None, max_edbs=512, edb_sample=24, n_idb=(2, 5), dom=None, eqrel=False,
-                 extreme=False):
+                 extreme=False, hide_some=False, opt_patterns=False, const_pool=None):
         self.rng = rng
         self.feat = set(ALL_FEATURES if features is None else features)
         self.max_edbs = max_edbs; self.edb_sample = edb_sample; self.n_idb = n_idb
         self.dom = copy.deepcopy(dom or DOM)
         self.eqrel = eqrel
+        self.hide_some = hide_some; self.opt_patterns = opt_patterns; self.const_pool = const_pool
         self.types = []
         self.vc = 0
 
@@ -36,7 +37,7 @@ class Gen:
     def const(self, ty):
         r = self.rng
         if ty == "i":
-            return N(r.choice([0, 1, 2, 3, -1]))
+            return N(r.choice(self.const_pool or [0, 1, 2, 3, -1]))
         if ty == "s":
             return S(r.choice(["a", "b", "ab", ""]))
         td = self.typedef(ty)
@@ -126,6 +127,14 @@ class Gen:
             P["clauses"].append({"head": {"rel": i0["name"], "args": [self.const(t) for t in i0["types"]]}, "body": []})
             feats.add("facts")
         P["strata"] = strata
+        if self.hide_some:
+            idb = [x for x in rels if not x["input"]]
+            for x in idb[:-1]:
+                if r.random() < 0.4:
+                    x["output"] = False
+        if self.opt_patterns:
+            self.add_opt_patterns(P, feats)
+        P["hidden"] = [x["name"] for x in P["rels"] if not x["input"] and not x["output"]]
         self.source_shape(P, feats)
         self.edb_space(P)
         for t in self.types:
@@ -320,6 +329,96 @@ class Gen:
             if r.random() < 0.2:
                 tgt = F("ADD", tgt, N(1))
         return {"k": "agg", "op": op, "res": V(res), "tgt": tgt, "body": body, "outer": sorted(set(outer))}
+
+    # ---- patterns the AST optimisation passes look for -------------------------
+    def add_opt_patterns(self, P, feats):
+        r = self.rng
+        rels = P["rels"]; cl = P["clauses"]; strata = P["strata"]
+        def stratum_index(name):
+            return next(i for i, st in enumerate(strata) if name in st)
+        def rename(t, suf):
+            if isinstance(t, dict):
+                if t.get("k") == "var":
+                    return {"k": "var", "n": t["n"] + suf}
+                return {k: rename(v, suf) for k, v in t.items()}
+            if isinstance(t, list):
+                return [rename(x, suf) for x in t]
+            return (t + suf) if False else t
+        def rename_clause(c, suf):
+            c2 = rename(c, suf)
+            for l in c2["body"]:
+                if l["k"] == "agg":
+                    l["outer"] = [v + suf for v in l["outer"]]
+            return c2
+        rules = [c for c in cl if c["body"]]
+        # alpha-equivalent duplicate clause (MinimiseProgram)
+        if rules and r.random() < 0.5:
+            c = r.choice(rules)
+            cl.append(rename_clause(c, "d")); feats.add("opt-dup-clause")
+        # constant constraints (SimplifyConstantBinaryConstraints / RemoveBooleanConstraints)
+        if rules and r.random() < 0.5:
+            c = r.choice(rules)
+            a, b = r.choice([(1, 1), (1, 2), (0, 0), (2, 1)])
+            c["body"].append({"k": "cmp", "op": r.choice(["EQ", "NE", "LT", "LE"]), "l": N(a), "r": N(b)})
+            feats.add("opt-const-constraint")
+        # copy relation (RemoveRelationCopies): cp(x..) :- src(x..), used instead of src in one later clause
+        cands = [x for x in rels if x["arity"] > 0 and not x.get("eqrel")]
+        if cands and r.random() < 0.5:
+            src = r.choice(cands)
+            users = [c for c in rules if any(l["k"] == "atom" and l["rel"] == src["name"] for l in c["body"])
+                     and stratum_index(c["head"]["rel"]) > stratum_index(src["name"])]
+            if users:
+                name = "cp%d" % len(rels)
+                rels.append({"name": name, "arity": src["arity"], "types": list(src["types"]), "input": False,
+                             "output": r.random() < 0.3, "eqrel": False})
+                vs = [V("c%d" % i) for i in range(src["arity"])]
+                cl.append({"head": {"rel": name, "args": vs}, "body": [{"k": "atom", "rel": src["name"], "args": vs}]})
+                strata.insert(stratum_index(src["name"]) + 1, [name])
+                u = r.choice(users)
+                for l in u["body"]:
+                    if l["k"] == "atom" and l["rel"] == src["name"]:
+                        l["rel"] = name; break
+                feats.add("opt-copy-rel")
+        # empty relation (RemoveEmptyRelations): no clauses, used positively in one new clause and negated in another
+        if rules and r.random() < 0.4:
+            name = "emp%d" % len(rels)
+            rels.append({"name": name, "arity": 1, "types": ["i"], "input": False, "output": False, "eqrel": False})
+            strata.insert(0, [name])
+            c = r.choice(rules)
+            c2 = rename_clause(copy.deepcopy(c), "e")
+            if r.random() < 0.5:
+                c2["body"].append({"k": "atom", "rel": name, "args": [ANY]})
+            else:
+                c2["body"].append({"k": "neg", "rel": name, "args": [N(0)]})
+            cl.append(c2); feats.add("opt-empty-rel")
+        # existential-only relation (ReduceExistentials): ex(x) :- src(x,..) ; used as ex(_)
+        if cands and rules and r.random() < 0.5:
+            src = r.choice([x for x in cands if x["input"]] or cands)
+            users = [c for c in rules if stratum_index(c["head"]["rel"]) > stratum_index(src["name"])]
+            if users:
+                name = "ex%d" % len(rels)
+                rels.append({"name": name, "arity": 1, "types": [src["types"][0]], "input": False, "output": False, "eqrel": False})
+                vs = [V("c%d" % i) for i in range(src["arity"])]
+                cl.append({"head": {"rel": name, "args": [vs[0]]}, "body": [{"k": "atom", "rel": src["name"], "args": vs}]})
+                strata.insert(stratum_index(src["name"]) + 1, [name])
+                u = r.choice(users)
+                u["body"].append({"k": "atom", "rel": name, "args": [ANY]})
+                feats.add("opt-existential")
+        # sum with a constant target (RemoveRedundantSums)
+        ins = [x for x in rels if x["input"]]
+        if rules and r.random() < 0.4:
+            cs = [c for c in rules if any(t == "i" for t in next(x for x in rels if x["name"] == c["head"]["rel"])["types"])
+                  and not any(l["k"] == "atom" and stratum_index(l["rel"]) == stratum_index(c["head"]["rel"]) for l in c["body"])]
+            if cs:
+                c = r.choice(cs)
+                src = r.choice(ins)
+                hrel = next(x for x in rels if x["name"] == c["head"]["rel"])
+                pos = r.choice([i for i, t in enumerate(hrel["types"]) if t == "i"])
+                res = self.fresh("i")
+                c["body"].append({"k": "agg", "op": "sum", "res": V(res), "tgt": N(r.choice([1, 2, 3])),
+                                  "body": [{"k": "atom", "rel": src["name"], "args": [ANY] * src["arity"]}], "outer": []})
+                c["head"]["args"][pos] = V(res)
+                feats.add("opt-const-sum")
 
     # ---- source shape: disjunctions and multiple heads ----------------------
     def source_shape(self, P, feats):
